@@ -1,7 +1,9 @@
 // Demonstrations of the genuine defects found by the static rules (DESIGN.md section 3).
 // Each test fails at the pinned commit 4474503 and passes after the corresponding "fix:" commit.
 // Not part of any registered check: copy into a scratch worktree of the repository root and run
-//   go test -run 'TestFinding' -count=1 .
+//
+//	go test -run 'TestFinding' -count=1 .
+//
 // under `timeout` and `ulimit -v` (the unrepaired code loops / exhausts memory on some of them).
 package vuego_test
 
@@ -253,9 +255,9 @@ func TestFinding15_EmptyDirInUpperLayer(t *testing.T) {
 // row 16 — C05.R4
 func TestFinding16_ShorthandInsideComponent(t *testing.T) {
 	out, err := renderFS(t, map[string]string{
-		"page.vuego":            `<div><my-a></my-a></div>`,
-		"components/MyA.vuego":  `<section><my-b></my-b></section>`,
-		"components/MyB.vuego":  `<em>inner</em>`,
+		"page.vuego":           `<div><my-a></my-a></div>`,
+		"components/MyA.vuego": `<section><my-b></my-b></section>`,
+		"components/MyB.vuego": `<em>inner</em>`,
 	}, "page.vuego", nil, vuego.WithComponents())
 	if err != nil || !strings.Contains(out, "<em>inner</em>") || strings.Contains(out, "my-b") {
 		t.Fatalf("shorthand inside a component not resolved: %q err=%v", out, err)
@@ -372,5 +374,76 @@ func TestFinding31_NestedComponentGetsItsOwnSlotContent(t *testing.T) {
 	out, err = renderFS(t, files, "page.vuego", map[string]any{})
 	if got := strings.Join(strings.Fields(out), ""); err != nil || got != "<div><b><i>OUTER</i></b></div>" {
 		t.Fatalf("forwarding: got %q err=%v", got, err)
+	}
+}
+
+// row 32 — C16.R7 (found by the rule): v-once together with v-for on one element rendered nothing
+func TestFinding32_OnceOnALoopingElementEmitsTheFirstInstance(t *testing.T) {
+	out, err := renderFS(t, map[string]string{
+		"p.vuego": `<ul><li v-once v-for="x in xs">{{ x }}</li></ul>`,
+	}, "p.vuego", map[string]any{"xs": []int{1, 2, 3}})
+	if got := strings.Join(strings.Fields(out), ""); err != nil || got != "<ul><li>1</li></ul>" {
+		t.Fatalf("got %q err=%v", got, err)
+	}
+}
+
+// row 33 — C13.R10: expressions the substring classifier does not know were dropped in value positions
+func TestFinding33_PrefixAndWordOperatorsAreEvaluatedEverywhere(t *testing.T) {
+	data := map[string]any{"x": false, "n": 3, "items": []int{3, 4}}
+	for src, want := range map[string]string{
+		`<p>{{ !x }}</p>`:             `<p>true</p>`,
+		`<p :title="!x">a</p>`:        `<ptitle="true">a</p>`,
+		`<p>{{ -n }}</p>`:             `<p>-3</p>`,
+		`<p>{{ (n) }}</p>`:            `<p>3</p>`,
+		`<p>{{ n in items }}</p>`:     `<p>true</p>`,
+		`<p v-text="not x"></p>`:      `<p>true</p>`,
+		`<p v-if="n in items">in</p>`: `<p>in</p>`,
+		`<p>{{ missing.path }}</p>`:   `<p></p>`,
+		`<p>{{ hyphen-key }}</p>`:     `<p></p>`,
+	} {
+		out, err := renderFS(t, map[string]string{"p.vuego": src}, "p.vuego", data)
+		if got := strings.Join(strings.Fields(out), ""); err != nil || got != want {
+			t.Errorf("%s: got %q err=%v, want %q", src, got, err, want)
+		}
+	}
+}
+
+// row 34 — C03.R8 (found by cross-checking the two element paths): the member selected by a chain lost directives
+func TestFinding34_ChainMembersAreEvaluatedLikeAnyOtherElement(t *testing.T) {
+	files := map[string]string{"c.vuego": `<b>comp</b>`}
+	data := map[string]any{"no": false, "yes": true, "xs": []int{1, 2}, "s": "S"}
+	for src, want := range map[string]string{
+		`<p v-if="yes" v-text="s"></p>`:                                    `<p>S</p>`,
+		`<p v-if="no">A</p><p v-else v-text="s"></p>`:                      `<p>S</p>`,
+		`<p v-if="yes" v-show="no">x</p>`:                                  `<pstyle="display:none;">x</p>`,
+		`<template v-if="yes" include="c.vuego"></template>`:               `<b>comp</b>`,
+		`<p v-if="no">A</p><template v-else include="c.vuego"></template>`: `<b>comp</b>`,
+		`<p v-if="no">A</p><li v-else v-for="x in xs">{{ x }}</li>`:        `<li>1</li><li>2</li>`,
+	} {
+		files["p.vuego"] = src
+		out, err := renderFS(t, files, "p.vuego", data)
+		if got := strings.Join(strings.Fields(out), ""); err != nil || got != want {
+			t.Errorf("%s: got %q err=%v, want %q", src, got, err, want)
+		}
+	}
+}
+
+// row 35 — C02.R7: the serialiser dropped the namespace prefix of foreign attributes
+func TestFinding35_AttributeNamespacePrefixSurvives(t *testing.T) {
+	out, err := renderFS(t, map[string]string{
+		"p.vuego": `<svg xmlns:xlink="http://www.w3.org/1999/xlink"><image xlink:href="a.png" xml:lang="en"></image></svg>`,
+	}, "p.vuego", map[string]any{})
+	if err != nil || !strings.Contains(out, `xlink:href="a.png"`) || !strings.Contains(out, `xml:lang="en"`) || !strings.Contains(out, `xmlns:xlink=`) {
+		t.Fatalf("got %q err=%v", out, err)
+	}
+}
+
+// row 37 (parser half) — C19.R9: </HTML> in upper case is a full document too
+func TestFinding37_UpperCaseClosingHTMLIsADocument(t *testing.T) {
+	out, err := renderFS(t, map[string]string{
+		"p.vuego": "<!DOCTYPE html>\n<HTML><HEAD><TITLE>x</TITLE></HEAD><BODY><P>a</P></BODY></HTML>",
+	}, "p.vuego", map[string]any{})
+	if err != nil || !strings.Contains(out, "<html>") || !strings.Contains(out, "<!DOCTYPE html>") {
+		t.Fatalf("got %q err=%v", out, err)
 	}
 }
